@@ -293,3 +293,39 @@ def run(ctx):
     pad = assigned_values(at, "padding")
     ok = bool(pad) and norm(pad[0]) in ("(alignment - self.f.tell() % alignment) % alignment", "-self.f.tell() % alignment")
     ctx.ob("C17.R7", W + ":ElfWriter.align_to", "align_to pads with (alignment - pos % alignment) % alignment zero bytes", ok and "self.f.write(bytes(padding))" in norm(at), construct="align_to")
+    _string_table(ctx)
+
+
+def _string_table(ctx):
+    """R8: the string table of an ELF file: an offset handed out for a name is the position of that name in THIS
+    file's table.  The name cache and the table bytes therefore belong to one StringTable instance, and a writer
+    creates its own table."""
+    from .c30 import process_state_sites
+    ST = "ppci/format/elf/string.py"
+    ctx.rule("C17.R8", "ELF string table: a name's offset is the length of this table's bytes at the moment the name is appended (NUL terminated); a cached offset is only reused within the same table (cache and bytes are per-instance state created in __init__); every writer creates its own table", floor=5)
+    gn = ctx.fn(ST, "StringTable.get_name")
+    site = ST + ":StringTable.get_name"
+    nm = gn.args.args[1].arg
+    sets = [n for n in ast.walk(gn) if isinstance(n, ast.Assign) and isinstance(n.targets[0], ast.Subscript) and norm(n.targets[0].slice) == nm]
+    ok = len(sets) == 1 and norm(sets[0].value) == "len(self.strtab)"
+    cache = norm(sets[0].targets[0].value) if sets else None
+    ctx.ob("C17.R8", site, "a new name is recorded at offset len(self.strtab)", ok, construct="offset-is-length", detail=norm(sets[0]) if sets else "")
+    grow = [n for n in ast.walk(gn) if isinstance(n, (ast.AugAssign, ast.Assign)) and norm(n.targets[0] if isinstance(n, ast.Assign) else n.target) == "self.strtab"]
+    ok = len(grow) == 1 and sets and grow[0].lineno > sets[0].lineno and "%s.encode(" % nm in norm(grow[0]) and ("bytes([0])" in norm(grow[0]) or "b'\\x00'" in norm(grow[0]))
+    ctx.ob("C17.R8", site, "then the table grows by the encoded name and a terminating NUL (after the offset was taken)", bool(ok), construct="append-nul-terminated", detail=norm(grow[0]) if grow else "")
+    from ..sym import conjuncts
+    guarded = sets and any(pol is True and " ".join(norm(c).split()) == "%s not in %s" % (nm, cache) for c, pol in conjuncts(sets[0], gn, {}))
+    rets = [norm(r.value) for r in ast.walk(gn) if isinstance(r, ast.Return)]
+    ctx.ob("C17.R8", site, "a name is appended only once; the recorded offset is returned", bool(guarded) and rets == ["%s[%s]" % (cache, nm)], construct="cache-consistent", detail=str(rets))
+    mod = ctx.project.module(ST)
+    hits = [t for k, n, t in process_state_sites(mod.tree)]
+    for rel in ("ppci/format/elf/writer.py", "ppci/format/elf/file.py", "ppci/format/elf/headers.py"):
+        hits += [t for k, n, t in process_state_sites(ctx.project.module(rel).tree)]
+    ctx.ob("C17.R8", "ppci/format/elf/*", "no state of the ELF writer lives on a class or module (a second file written in the same process would reuse offsets of the first)", not hits, construct="per-file-state", detail="; ".join(hits[:3]))
+    ini = ctx.project.module(ST).defs.get("StringTable.__init__")
+    st = {norm(n.targets[0]): norm(n.value) for n in ast.walk(ini) if isinstance(n, ast.Assign)} if ini is not None else {}
+    ctx.ob("C17.R8", ST + ":StringTable.__init__", "each table starts as the single NUL byte with an empty name cache", st.get("self.strtab") in ("bytes([0])", "b'\\x00'") and st.get(cache or "self.names") == "{}", construct="fresh-table", detail=str(st))
+    wc = ctx.cls(W, "ElfWriter")
+    mk = [(m.name, n) for m in wc.body if isinstance(m, ast.FunctionDef) for n in ast.walk(m) if isinstance(n, ast.Assign) and norm(n.value) == "StringTable()" and norm(n.targets[0]).startswith("self.")]
+    cls_level = [n for n in wc.body if isinstance(n, ast.Assign) and "StringTable" in norm(n.value)]
+    ctx.ob("C17.R8", W + ":ElfWriter", "the writer creates a fresh string table for the file it writes (inside a method, not as a class attribute)", len(mk) == 1 and not cls_level, construct="table-per-file", detail=", ".join(m for m, _ in mk))
